@@ -125,6 +125,9 @@ class InitHook(Monitor):
         if common.get_arg(args, kwargs, 2, 'infimum', ()):
             return
         common.tie(args[0], common.get_arg(args, kwargs, 1, 'context'))
+        if common.DEFER[0]:     # the driver reads this lattice first (in its own order, possibly cut short)
+            COL.count('construction_hook_deferred_to_the_driver')
+            return
         judge_labels(args[0], self.cap, 'init')
 
 
